@@ -1130,6 +1130,19 @@ def run_pool(cases, nproc, chunk=24):
     crashed = [i for idx in todo for i in idx]
     for i in crashed:
         out[i] = {"st": "worker-crash"}
+    # a case that did not finish within its CPU budget is run once more, alone, with a five times larger budget,
+    # before it is believed (a worker's first case pays for imports; on an oversubscribed machine caches thrash):
+    # a genuinely non-prompt operation (unreduced EXP: minutes) still does not finish
+    global PROMPT_S
+    late = [i for i, r in enumerate(out) if r and r.get("st") == "timeout"]
+    if late and len(late) <= 40:
+        keep = PROMPT_S
+        PROMPT_S = 5 * keep
+        try:
+            for i in late:
+                out[i] = impl_case(cases[i])
+        finally:
+            PROMPT_S = keep
     return out, crashed
 
 
